@@ -250,4 +250,149 @@ theorem parse_written_tensors (ts : List TensorD) (all : List Nat) (tensors : Li
     obtain rfl := Except.ok.inj hb2
     exact ⟨ntd, hb1, hp⟩
 
+/-! ## (b) operator codes -/
+
+theorem parseOpCode_op (oc : OpCodeT) (rc : Reader.RCode) (h : Reader.parseOpCode oc = .ok rc) : lookupOp rc.op.name = some rc.op := by
+  unfold Reader.parseOpCode at h
+  obtain ⟨row, h1, h⟩ := bind_ok h
+  obtain ⟨info, h2, h⟩ := bind_ok h
+  simp only [pure, Except.pure, Except.ok.injEq] at h
+  subst h
+  dsimp only
+  unfold lookupOpE at h2
+  cases hx : lookupOp row.2.1 with
+  | none => simp [hx, throw, throwThe, MonadExceptOf.throw] at h2
+  | some i =>
+    simp [hx, pure, Except.pure] at h2
+    subst h2
+    obtain ⟨_, hn⟩ := lookupOp_tableOk _ _ hx
+    rw [hn]; exact hx
+
+theorem serialiseOpCode_lookup (c : Code) (oc : OpCodeT) (h : serialiseOpCode c = .ok oc) : ∃ info, lookupOpId c.opId = some info := by
+  unfold serialiseOpCode at h
+  cases hx : lookupOpId c.opId with
+  | none => simp [hx, bind, Except.bind, throw, throwThe, MonadExceptOf.throw] at h
+  | some i => exact ⟨i, rfl⟩
+
+theorem opcodes_readable (codes : List Code) (opcodes : List OpCodeT) (h : codes.mapM serialiseOpCode = .ok opcodes) :
+    ∃ rcodes, opcodes.mapM Reader.parseOpCode = .ok rcodes := by
+  apply mapM_of_pointwise
+  intro oc hoc
+  obtain ⟨c, _, hc⟩ := mapM_mem _ _ _ h oc hoc
+  obtain ⟨info, hi⟩ := serialiseOpCode_lookup c oc hc
+  obtain ⟨rc, _, _, _, hrc, _⟩ := opcode_roundtrip c oc info hi hc
+  exact ⟨rc, hrc⟩
+
+theorem tableOk_lookupOpId (info : OpInfo) (h : info.tableOk = true) : lookupOpId info.id = some info := by
+  unfold OpInfo.tableOk at h
+  simp only [Bool.and_eq_true, beq_iff_eq] at h
+  exact h.1.2
+
+/-- the operator code entry a written operator points to, as the reader parses it -/
+theorem codeAt_written (ci : OpInfo) (hci : lookupOp "Custom" = some ci) (codes : List Code) (opcodes : List OpCodeT)
+    (rcodes : List Reader.RCode) (h2 : codes.mapM serialiseOpCode = .ok opcodes) (h3 : opcodes.mapM Reader.parseOpCode = .ok rcodes)
+    (p : POp) (hp : p.info.tableOk = true) (i : Nat) (hi : opcodeIndex codes p = .ok i) :
+    Reader.codeAt rcodes i = .ok (normRCode ci p) := by
+  obtain ⟨c, c1, c2, c3, c4⟩ := opcodeIndex_ok _ _ _ hi
+  obtain ⟨_, f2⟩ := mapM_ok _ _ _ h2
+  obtain ⟨oc, oc1, oc2⟩ := f2 i c c1
+  obtain ⟨_, f3⟩ := mapM_ok _ _ _ h3
+  obtain ⟨rc, rc1, rc2⟩ := f3 i oc oc1
+  have hl : lookupOpId c.opId = some p.info := by rw [c2]; exact tableOk_lookupOpId _ hp
+  obtain ⟨rc', tf, ser, wt, r1, r2, r3, r4, r5, r6, r7, r8⟩ := opcode_roundtrip c oc p.info hl oc2
+  rw [rc2] at r1
+  obtain rfl := Except.ok.inj r1
+  have hop := parseOpCode_op oc rc rc2
+  unfold Reader.codeAt
+  rw [rc1]
+  simp only [pure, Except.pure, Except.ok.injEq]
+  have hop' : rc.op = if p.info.name = "CustomNpuOp" then ci else p.info := by
+    by_cases hn : p.info.name = "CustomNpuOp"
+    · rw [if_pos hn] at r4 ⊢
+      rw [r4, hci] at hop
+      exact (Option.some.inj hop).symm
+    · rw [if_neg hn]; exact r5 hn
+  have hcu : rc.custom = if p.info.name = "Custom" then some p.custom else if p.info.name = "CustomNpuOp" then some ethosU else none := by
+    rw [r6]
+    by_cases hn : p.info.name = "Custom"
+    · rw [if_pos hn, if_pos hn, c4 hn]; rfl
+    · rw [if_neg hn, if_neg hn]
+  cases rc with
+  | mk op hs cu ind ver =>
+    simp only at hop' hcu r3 r7 r8
+    unfold normRCode hasSer
+    simp only [r2]
+    rw [hop', hcu, r3, r7, r8, c3]
+
+/-! ## (c) one operator -/
+
+theorem mapIdx_lt (all : List Nat) (t : Option Nat) (i : Nat) (h : mapIdx all t = some i) : i < all.length := by
+  cases t with
+  | none => simp [mapIdx] at h
+  | some g => exact (List.getElem?_eq_some_iff.mp (indexIn_some all g i h)).1
+
+theorem serialiseOperator_payload (codes : List Code) (all : List Nat) (p : POp) (o : OperatorT) (h : serialiseOperator codes all p = .ok o) :
+    o.payload = writtenPayload p := by
+  unfold serialiseOperator at h
+  dsimp only at h
+  obtain ⟨idx, hidx, h⟩ := bind_ok h
+  simp only [pure, Except.pure, Except.ok.injEq] at h
+  subst h
+  rfl
+
+theorem resolve_inputs (all : List Nat) (b : Nat) (l : List (Option Nat)) :
+    Reader.resolveAll b all.length (some (l.map fun t => match mapIdx all t with | some i => (i : Int) | none => -1)) = .ok (l.map (ren all b)) := by
+  unfold Reader.resolveAll
+  apply mapM_map_ok
+  intro t _
+  unfold ren
+  cases hm : mapIdx all t with
+  | none => exact resolve_minus1 _ _
+  | some i => exact resolve_nat b _ i (mapIdx_lt all t i hm)
+
+theorem resolve_results (all : List Nat) (b : Nat) (l : List (Option Nat)) :
+    (l.filterMap fun t => (mapIdx all t).map Int.ofNat).mapM (Reader.resolve b all.length) = .ok ((renResults all b l).map some) := by
+  unfold renResults
+  rw [← List.map_filterMap, List.map_map]
+  apply mapM_map_ok
+  intro i hi
+  obtain ⟨t, _, ht⟩ := List.mem_filterMap.mp hi
+  exact resolve_nat b _ i (mapIdx_lt all t i ht)
+
+theorem fileOutputs_some (l : List Nat) : Reader.fileOutputs (l.map some) = .ok l := by
+  unfold Reader.fileOutputs
+  have := mapM_map_ok (fun t : Option Nat => match t with | some t => (pure t : Except String Nat) | none => throw "attr") some id l
+    (fun a _ => rfl)
+  rw [List.map_id] at this
+  exact this
+
+theorem parse_written_operator (ci : OpInfo) (rcodes : List Reader.RCode) (codes : List Code) (all : List Nat) (b : Nat)
+    (T : List TensorD) (k : Nat) (p : POp) (o : OperatorT)
+    (hser : serialiseOperator codes all p = .ok o)
+    (hcode : ∀ i, opcodeIndex codes p = .ok i → Reader.codeAt rcodes i = .ok (normRCode ci p))
+    (hflat : (normRCode ci p).op.nng.flat = (normRCode ci p).indices.flat)
+    (hname : ((normRCode ci p).op.name == "AssignVariable" || (normRCode ci p).op.name == "CallOnce") = false)
+    (hconv : (normRCode ci p).op.convLike = false) :
+    Reader.parseOperator rcodes b all.length T k o = .ok (normROp ci all b p, T, none) := by
+  obtain ⟨s1, s2, s3, s4, _, _⟩ := serialiseOperator_ok _ _ _ _ hser
+  have s5 := serialiseOperator_payload _ _ _ _ hser
+  have hvs : ∀ outs, Reader.virtualStep (normRCode ci p) k T outs = (T, outs, none) := by
+    intro outs; unfold Reader.virtualStep; simp only [hname]; rfl
+  have hcs : ∀ ins, Reader.cloneStep (normRCode ci p).op T ins = .ok (T, ins) := by
+    intro ins; unfold Reader.cloneStep; simp only [hconv]; rfl
+  have hint : Reader.resolveIntermediates b all.length o.intermediates = .ok ((renResults all b p.intermediates).map some) := by
+    rw [s3]; exact resolve_results all b _
+  have hout : Reader.resolveAll b all.length o.outputs = .ok ((renResults all b p.outputs).map some) := by
+    rw [s2]; exact resolve_results all b _
+  have hin : Reader.resolveAll b all.length o.inputs = .ok (p.inputs.map (ren all b)) := by
+    rw [s1]; exact resolve_inputs all b _
+  unfold Reader.parseOperator
+  simp only [hcode _ s4, hin, hout, hint, fileOutputs_some, alignInputs_id _ _ _ hflat, hvs, hcs, s5, bind, Except.bind, pure, Except.pure]
+  unfold normROp
+  have hp : (if (normRCode ci p).hasSer = true then writtenPayload p else Reader.noPayload) = writtenPayload p := by
+    unfold writtenPayload normRCode
+    dsimp only
+    cases hasSer p <;> simp
+  rw [hp]
+
 end VelaVerif.Tflite.Roundtrip
